@@ -73,6 +73,16 @@ Definition read_fixed (k : nat) (s : str) : option (N * str) := read_fixed_acc k
 Definition s_true : str := [116;114;117;101]%N.
 Definition s_false : str := [102;97;108;115;101]%N.
 Definition bool_encode (b : bool) : str := if b then s_true else s_false.
+(* Boolean.encode on its whole signature: value is True / False, or str(value).lower() is "true" / "false" (bytes, ints ... -> TypeError).
+   str.lower is modelled on ASCII: no non-ASCII character lower-cases to a letter of "true" or "false". *)
+Inductive binput := BBool (b : bool) | BStr (s : str) | BOther.
+Definition lower_str (s : str) : str := map (fun c => if (65 <=? c)%N && (c <=? 90)%N then (c + 32)%N else c) s.
+Definition bool_encode_any (i : binput) : option str :=
+  match i with
+  | BBool b => Some (bool_encode b)
+  | BStr s => if str_eqb (lower_str s) s_true then Some s_true else if str_eqb (lower_str s) s_false then Some s_false else None
+  | BOther => None
+  end.
 Definition bool_decode (t : str) : option bool :=
   if str_eqb t s_true then Some true else if str_eqb t s_false then Some false else None.
 Definition bool_lexical (t : str) : bool := str_eqb t s_true || str_eqb t s_false.
@@ -224,7 +234,8 @@ Definition xsd_dur (t : str) (v : Z) : Prop :=
 Definition dur_lexical (t : str) : bool := is_some (dur_decode t).
 
 (* ------------------------------------------------------------------ Date / DateTime
-   datetime record; tz = None (naive) or Some offset in seconds, |offset| < 86400 (whole-second offsets) *)
+   datetime record; tz = None (naive) or Some offset in MICROSECONDS, |offset| < 24 h.  [valid_tz] (the domain of the theorems)
+   asks for a whole number of seconds; the functions below handle any microsecond offset, as datetime does. *)
 Record dtime := mkdt { yr : N; mo : N; dy : N; hh : N; mi : N; ss : N; us : N; tz : option Z }.
 
 Definition is_leap (y : N) : bool := ((y mod 4 =? 0) && negb (y mod 100 =? 0) || (y mod 400 =? 0))%N.
@@ -234,21 +245,24 @@ Definition days_in_month (y m : N) : N :=
 Definition valid_date (y m d : N) : bool :=
   ((1 <=? y) && (y <=? 9999) && (1 <=? m) && (m <=? 12) && (1 <=? d) && (d <=? days_in_month y m))%N.
 Definition valid_tz (o : option Z) : bool :=
-  match o with None => true | Some z => (-86400 <? z)%Z && (z <? 86400)%Z end.
+  match o with None => true | Some z => (-86400000000 <? z)%Z && (z <? 86400000000)%Z && (z mod 1000000 =? 0)%Z end.
 Definition valid_dt (d : dtime) : bool :=
   valid_date (yr d) (mo d) (dy d) && (hh d <? 24)%N && (mi d <? 60)%N && (ss d <? 60)%N && (us d <? 1000000)%N && valid_tz (tz d).
 
 (* date.isoformat() *)
 Definition format_date (y m d : N) : str :=
   print_fixed 4 y ++ c_minus :: print_fixed 2 m ++ c_minus :: print_fixed 2 d.
-(* datetime._format_offset for whole-second offsets *)
+(* datetime._format_offset: +HH:MM, then :SS when the offset has seconds or microseconds, then .ffffff when it has microseconds *)
 Definition format_offset (o : option Z) : str :=
   match o with
   | None => []
   | Some z =>
     let a := Z.to_N (Z.abs z) in
-    (if (z <? 0)%Z then c_minus else c_plus) :: print_fixed 2 (a / 3600) ++ c_colon :: print_fixed 2 ((a mod 3600) / 60) ++
-    (if (a mod 60 =? 0)%N then [] else c_colon :: print_fixed 2 (a mod 60))
+    let sec := ((a mod 60000000) / 1000000)%N in
+    let u := (a mod 1000000)%N in
+    (if (z <? 0)%Z then c_minus else c_plus) :: print_fixed 2 (a / 3600000000) ++ c_colon :: print_fixed 2 ((a mod 3600000000) / 60000000) ++
+    (if (sec =? 0)%N && (u =? 0)%N then []
+     else c_colon :: print_fixed 2 sec ++ (if (u =? 0)%N then [] else c_dot :: print_fixed 6 u))
   end.
 (* datetime.isoformat() *)
 Definition isoformat (d : dtime) : str :=
@@ -280,14 +294,21 @@ Definition parse_tz (s : str) : option (option Z) :=
         | Some r2 =>
           match read_fixed 2 r2 with
           | Some (m, r3) =>
-            let fin (sec : N) :=
-              let tot := Z.of_N (h * 3600 + m * 60 + sec) in
-              if (m <? 60)%N && (sec <? 60)%N && (tot <? 86400)%Z
+            let fin (sec u : N) :=
+              let tot := Z.of_N ((h * 3600 + m * 60 + sec) * 1000000 + u) in
+              if (m <? 60)%N && (sec <? 60)%N && (tot <? 86400000000)%Z
               then Some (Some (if (c =? c_minus)%N then (- tot)%Z else tot)) else None in
             match r3 with
-            | [] => fin 0%N
+            | [] => fin 0%N 0%N
             | _ => match expect c_colon r3 with
-                   | Some r4 => match read_fixed 2 r4 with Some (sec, []) => fin sec | _ => None end
+                   | Some r4 => match read_fixed 2 r4 with
+                                | Some (sec, []) => fin sec 0%N
+                                | Some (sec, c5 :: r5) =>
+                                    if (c5 =? c_dot)%N then
+                                      let '(f, r6) := read_digits r5 in
+                                      match f, r6 with _ :: _, [] => fin sec (frac6 f) | _, _ => None end
+                                    else None
+                                | None => None end
                    | None => None end
             end
           | None => None end
@@ -444,9 +465,35 @@ Definition rgb2hex_name (tbl : list (str * (Z * Z * Z))) (name : str) : option s
 Definition is_space (c : N) : bool := (c =? 32)%N || ((9 <=? c)%N && (c <=? 13)%N) || ((28 <=? c)%N && (c <=? 31)%N).
 Fixpoint lstrip (s : str) : str := match s with c :: r => if is_space c then lstrip r else s | [] => [] end.
 Definition strip (s : str) : str := rev (lstrip (rev (lstrip s))).
-Definition hexa_color_str (tbl : list (str * (Z * Z * Z))) (color : str) : option str :=
-  let c := strip color in
-  match c with
-  | [] => Some (c_hash :: [48;48;48;48;48;48]%N)
-  | x :: _ => if (x =? c_hash)%N then Some c else rgb2hex_name tbl c
+(* hexa_color(color): every input form.  Result: None = raises; Some None = returns None; Some (Some s) = returns s.
+   A string that starts with '#' is returned as it is, whatever follows (pinned by tests/style/test_style_property.py with "#f00"). *)
+Inductive hinput := HNone | HTuple (channels : list Z) | HStr (s : str) | HOther.   (* HOther: int, list, dict, bytes ... -> TypeError *)
+Definition s_black : str := c_hash :: [48;48;48;48;48;48]%N.
+Definition hexa_color (tbl : list (str * (Z * Z * Z))) (i : hinput) : option (option str) :=
+  match i with
+  | HNone => Some None
+  | HTuple [r; g; b] => match rgb2hex r g b with Some h => Some (Some h) | None => None end
+  | HTuple _ => None
+  | HOther => None
+  | HStr color =>
+    let c := strip color in
+    match c with
+    | [] => Some (Some s_black)
+    | x :: _ => if (x =? c_hash)%N then Some (Some c)
+                else match rgb2hex_name tbl c with Some h => Some (Some h) | None => None end
+    end
+  end.
+(* the colour an input denotes, when it denotes one *)
+Definition hexa_denotes (tbl : list (str * (Z * Z * Z))) (i : hinput) : option (N * N * N) :=
+  match i with
+  | HTuple [r; g; b] => if ((0 <=? r) && (r <=? 255) && (0 <=? g) && (g <=? 255) && (0 <=? b) && (b <=? 255))%Z then Some (Z.to_N r, Z.to_N g, Z.to_N b) else None
+  | HStr color =>
+    match strip color with
+    | [] => Some (0, 0, 0)%N
+    | x :: r => if (x =? c_hash)%N then hex2rgb (x :: r)
+                else match lookup (map ascii_lower (x :: r)) tbl with
+                     | Some (r', g, b) => if ((0 <=? r') && (r' <=? 255) && (0 <=? g) && (g <=? 255) && (0 <=? b) && (b <=? 255))%Z then Some (Z.to_N r', Z.to_N g, Z.to_N b) else None
+                     | None => None end
+    end
+  | _ => None
   end.
